@@ -70,6 +70,12 @@ PROPS = {
         'quick': 16000,
         'thorough': 400000,
     },
+    'C18': {
+        'level': 'exploration',
+        'strata': [('aliased-vs-canonical-twin', 'alias', 1.0)],
+        'quick': 12000,
+        'thorough': 300000,
+    },
 }
 
 COMPONENTS = {
